@@ -17,7 +17,24 @@ def digest(t):
         h = zlib.crc32(v.tobytes(), h)
     h = zlib.crc32(repr(list(t.comments)).encode(), h)
     h = zlib.crc32(repr(t.source).encode(), h)
+    for a in branch_buffers(t):          # a branch tree's content includes the branches it remembers
+        h = zlib.crc32(("%s|%s|" % (a.dtype, a.shape)).encode(), h)
+        h = zlib.crc32(np.ascontiguousarray(a).tobytes(), h)
     return int(h & 0x3FFFFFFF)
+
+
+def branch_buffers(t):
+    """the column buffers behind the branches a BranchTree remembers (in a fixed order); empty for a plain tree"""
+    out = []
+    brs = getattr(t, "branches", None)
+    if isinstance(brs, dict):
+        for key in sorted(brs):
+            for b in brs[key]:
+                owner = getattr(b, "attach", None)
+                nd = getattr(owner, "ndata", None)
+                if isinstance(nd, dict):
+                    out += [nd[k] for k in sorted(nd)]
+    return out
 
 
 def overlap(a, b):
@@ -38,8 +55,7 @@ class Heap:
 
     def classes(self, t):
         out = []
-        for k in t.ndata:
-            a = t.ndata[k]
+        for a in [t.ndata[k] for k in t.ndata] + branch_buffers(t):
             cid = None
             for b, c in self.arrs:
                 if overlap(a, b):
@@ -109,6 +125,8 @@ def apply_op(inst, objs, usable):
         r = T.CutShortTipBranch(thre=1.5)(t)
     elif op == "compose":
         r = T.Transforms(T.Translate(1.0, 2.0, 3.0), T.CutByFurcationOrder(2), T.RadiusReseter(1.5))(t)
+    elif op == "branch_tree":
+        r = T.ToBranchTree()(t)          # a tree (root, furcations, tips) that also remembers its branches: later steps work on it like on any tree
     elif op == "subtree":
         arg = a % n
         r = get_subtree(t, arg) if b == 0 else t.node(arg).subtree()
